@@ -1,11 +1,13 @@
 #!/bin/sh
-# run seedtest for every complete seed of a claimed property that has no log yet
-CLAIMED=$(python3 -c "import json;print(' '.join(c['property_id'] for c in json.load(open('/verif/MANIFEST.json'))['checks']))")
+# run seedtest for every complete seed under /tmp/seed/<Cxx or CxxrN>/<k>/ of a claimed property that has no log yet
+HERE="$(cd "$(dirname "$0")/.." && pwd)"
+CLAIMED=$(python3 -c "import json;print(' '.join(c['property_id'] for c in json.load(open('$HERE/MANIFEST.json'))['checks']))")
+mkdir -p /tmp/seedres
 for d in /tmp/seed/C*/[12]; do
-  p=$(basename $(dirname $d)); k=$(basename $d)
+  g=$(basename $(dirname $d)); p=$(echo $g | cut -c1-3); k=$(basename $d)
   [ -f $d/patch.diff ] && [ -f $d/demo.py ] && [ -f $d/meta.json ] || continue
   echo " $CLAIMED " | grep -q " $p " || continue
-  [ -f /tmp/seedres/${p}_$k.log ] && continue
-  /verif/tools/seedtest.sh $d $p > /tmp/seedres/${p}_$k.log 2>&1
-  echo "$p/$k: $(grep -c VIOLATION /tmp/seedres/${p}_$k.log) violation lines; $(grep 'demo:' /tmp/seedres/${p}_$k.log); $(grep 'seed=' /tmp/seedres/${p}_$k.log | tail -1)"
+  [ -f /tmp/seedres/${g}_$k.log ] && continue
+  $HERE/tools/seedtest.sh $d $p > /tmp/seedres/${g}_$k.log 2>&1
+  echo "$g/$k: $(grep -c VIOLATION /tmp/seedres/${g}_$k.log) violation lines; $(grep 'demo:' /tmp/seedres/${g}_$k.log); $(grep 'seed=' /tmp/seedres/${g}_$k.log | tail -1)"
 done
